@@ -46,9 +46,9 @@ def budget(tier):
 
 @st.composite
 def _cases(draw, tier):
-    if pct(draw) < 9:
+    if pct(draw) < 16:
         salt = draw(strategies.salts)
-        fault_at = draw(st.sampled_from([None, None, None, 0, 1, 2, 3, 4, 6]))
+        fault_at = draw(st.sampled_from([None, None, None, None, None, 0, 1, 2, 3, 4, 6]))
         inst = draw(strategies.instances(strategies.SIZES['quick'],
                                          min_len=draw(st.sampled_from([1, 2, 3]))))
         if fault_at is None and draw(st.booleans()):
@@ -60,7 +60,7 @@ def _cases(draw, tier):
             opts = draw(strategies.option_sets(inst, min_crit=1, max_crit=5))
         if fault_at is None and pct(draw) < 70:
             strategies.maxsize_first(draw, opts)
-        if fault_at is None and inst.get('lprefs') is not None and pct(draw) < 50:
+        if fault_at is None and inst.get('lprefs') is not None and pct(draw) < 70:
             opts = draw(strategies.cost_focus_options(inst))
         case = {'kind': 'solved', 'inst': inst, 'opts': opts, 'salt': salt,
                 'fault_at': fault_at,
